@@ -22,7 +22,7 @@ type CrashParams struct {
 	History []SOp     `json:"history"`
 	Victim  SOp       `json:"victim"`
 	AutoGC  bool      `json:"auto_gc,omitempty"`
-	OnlyK   int       `json:"only_k,omitempty"` // replay: a single crash point (0 = all)
+	OnlyK   int       `json:"only_k,omitempty"` // replay: crash points up to this one (0 = all)
 }
 
 type crashProp struct{}
@@ -232,8 +232,10 @@ func (p *crashProp) Run(rc *RunCtx, sc *Scenario) *RunInfo {
 	info.Probes["crash_points"] += n
 	evals := 0
 	for k := 1; k <= n; k++ {
-		if cp.OnlyK != 0 && k != cp.OnlyK {
-			continue
+		if cp.OnlyK != 0 && k > cp.OnlyK {
+			// a replay stops after the crash point that failed; the earlier ones are executed
+			// again so that every execution meets the same stretch of the decision tape
+			break
 		}
 		dir := filepath.Join(rc.DiskDir, fmt.Sprintf("k%d", k))
 		resk, _, beforeK, verr := run(dir, k)
